@@ -1,5 +1,5 @@
 (* Proofs about the driver state machine of Model/Driver.v (C13) and the resume theorem (C14). *)
-From Coq Require Import ZArith List Bool QArith Qcanon Lia Lra Lqa.
+From Coq Require Import ZArith List Bool QArith Qcanon Lia Lqa.
 From SG Require Import Base.QcUtil Model.Driver.
 Import ListNotations.
 Open Scope Z_scope.
